@@ -414,6 +414,13 @@ class InstanceWriteProvider(BaseProvider):
                     if orig_value is None or prop.value != orig_value:
                         self.validate_reference_property_endpoint_exists(prop,)
 
+        # Namespaces that hold a copy of a multi-namespace association
+        # instance before the modification
+        old_namespaces = []
+        if self.is_association(creation_class):
+            old_namespaces = self.find_multins_association_ref_namespaces(
+                original_instance, namespace)
+
         # Update the properties in the original instance from properties
         # in the modified instance
         original_instance.update(modified_instance.properties)
@@ -426,13 +433,27 @@ class InstanceWriteProvider(BaseProvider):
         if self.is_association(creation_class):
             assoc_namespaces = self.find_multins_association_ref_namespaces(
                 original_instance, namespace)
+            new_namespaces_lc = [ns.lower() for ns in assoc_namespaces]
+            stale_namespaces = [ns for ns in old_namespaces
+                                if ns.lower() not in new_namespaces_lc]
+            stale_path = original_instance.path.copy()
             if assoc_namespaces:
                 # It is a multi-namespace association instance. Validate
                 # characteristics of other namespaces and insert the same
                 # instance in each of these namespaces with specific path.
                 self.modify_multi_namespace_instance(
                     original_instance, assoc_namespaces)
-                return
+            else:
+                instance_store.update(original_instance.path,
+                                      original_instance)
+            # Remove the copies in namespaces that no reference property
+            # of the modified instance points to any more.
+            for ns in stale_namespaces:
+                stale_path.namespace = ns
+                stale_store = self.cimrepository.get_instance_store(ns)
+                if stale_store.object_exists(stale_path):
+                    stale_store.delete(stale_path)
+            return
 
         # Replace the instance in the CIM repository with the local copy.
         instance_store.update(original_instance.path, original_instance)
